@@ -79,6 +79,32 @@ CLAIMS = {
                 "LMDB writer/reader tables describe one mapping and store each field through a reversible codec; /e/<id> publishes through the encoder.",
         "not_decided": "round-trip equality through the engines' JSON/TEXT/msgpack codecs for all values; byte-level escaping equality.",
     },
+    "C05": {
+        "technique": "who-may-call ownership of the registry, CFG path rule (registry read -> await -> task creation), structural fan-out "
+                     "shape, control-dependence of the broadcast, sibling field-coverage / falsy-zero lint of the live matcher, typestate liveness",
+        "text": TXT + "Decides: only subscribe/unsubscribe mutate the registry (insertion after start, identity-keyed); the fan-out reads the "
+                "registry after its last suspension point and never awaits inside the loops; exactly one unconditional notify task per "
+                "subscription; broadcast after commit iff new; the live matcher covers every filter field and honours 0 bounds; "
+                "notify queues exactly (sub_id, event) iff matched.",
+        "not_decided": "exactly-once delivery under all interleavings; semantic equivalence of check_event with the stored predicates.",
+    },
+    "C07": {
+        "technique": "transaction-region analysis (lexical region + class-hierarchy-resolved closure): handle provenance of every write, no nested "
+                     "begin/commit, no swallowing handler around a write, nothing deferred to another task; who-may-call on txn.put/delete; "
+                     "schema table comparison",
+        "text": TXT + "Decides: one SQL region spans pre_save/INSERT/post_save/process_tags and all writes use its handle; the LMDB writer applies a "
+                "task in one write transaction with the logging handler outside it and inside the loop; slots via async with; cascade + "
+                "foreign_keys pragma; no index commits to a foreign store.",
+        "not_decided": "engine-level atomic commit and crash recovery; faults between commit and broadcast.",
+    },
+    "C08": {
+        "technique": "conjunct extraction from SQLAlchemy delete/select expressions with value provenance of deleted ids, structural nesting "
+                     "check of the LMDB kind-5 branch, who-may-call on unauthenticated delete paths",
+        "text": TXT + "Decides: every events-table DELETE in the add_event closure is and-constrained to the incoming event's pubkey (or deletes ids "
+                "read from such a SELECT), the kind-5 delete is pinned to the event's own e-tags; the LMDB branch deletes only author-index "
+                "hits that are in the referenced set, one bad reference does not cancel the rest; delete_event has a fixed caller set.",
+        "not_decided": "scanner arithmetic of the author index; completeness of removal.",
+    },
 }
 
 PENDING = "checker for this property is not implemented yet in this revision; nothing is claimed"
